@@ -1411,7 +1411,7 @@ pub fn norm_entry(a: &AbsResp) -> AbsResp {
 pub const ALL_KINDS: [Kind; 5] = [
     Kind::MEM_LIB,
     Kind::SQL_LIB,
-    Kind { backend: Backend::Sqlite, entry: Entry::Lib, reopen_pct: 30, socket: false, peers: false },
+    Kind { backend: Backend::Sqlite, entry: Entry::Lib, reopen_pct: 30, socket: false, peers: false, pinned_first: false },
     Kind::MEM_HTTP,
     Kind::SQL_HTTP,
 ];
